@@ -38,14 +38,49 @@ pub struct Outcome {
     pub preds: Vec<(String, String)>, // (property, description)
 }
 
-fn top_key(path: &str) -> String {
+/// Key of a mismatch, used for field ownership: `pst`, `snap.fml`, `out.T`,
+/// `out.Announce.gm`, `out.len`, `pend`, `flt.meas`, ...
+fn top_key(path: &str, exp: &Value) -> String {
     let p = path.trim_start_matches('.');
-    let end = p.find(|c| c == '.' || c == '[' || c == ' ').unwrap_or(p.len());
-    p[..end].to_string()
+    let p = p.split(' ').next().unwrap_or(p);
+    // split into segments, dropping indices
+    let mut segs: Vec<String> = vec![];
+    let mut idx: Vec<Option<usize>> = vec![];
+    for raw in p.split('.') {
+        let (name, i) = match raw.find('[') {
+            Some(b) => (&raw[..b], raw[b + 1..].split(']').next().and_then(|x| x.parse::<usize>().ok())),
+            None => (raw, None),
+        };
+        segs.push(name.to_string());
+        idx.push(i);
+    }
+    if segs.is_empty() {
+        return "?".into();
+    }
+    match segs[0].as_str() {
+        "snap" => format!("snap.{}", segs.get(1).cloned().unwrap_or_default()),
+        "out" => match idx[0] {
+            None => "out.len".into(),
+            Some(i) => {
+                let a = &exp["out"][i];
+                match a["a"].as_str() {
+                    Some("T") => "out.T".into(),
+                    Some("F") => "out.F".into(),
+                    Some(_) => format!("out.{}.{}", a["t"].as_str().unwrap_or("?"), segs.get(1).cloned().unwrap_or_default()),
+                    None => "out.len".into(),
+                }
+            }
+        },
+        "flt" => match idx[0] {
+            None => "flt.len".into(),
+            Some(i) => format!("flt.{}", exp["flt"][i]["k"].as_str().unwrap_or("?")),
+        },
+        other => other.to_string(),
+    }
 }
 
 /// Observable predicates: statements of the properties over π alone
-fn predicates(cfg: &Cfg, ev: &Value, pre: &Value, act: &Value) -> Vec<(String, String)> {
+fn predicates(cfg: &Cfg, ev: &Value, pre: &Value, act: &Value, so_from_start: bool) -> Vec<(String, String)> {
     let mut v = vec![];
     let pst: Vec<&str> = act["pst"].as_array().map(|a| a.iter().map(|x| x.as_str().unwrap_or("?")).collect()).unwrap_or_default();
     let pre_pst: Vec<&str> = pre["pst"].as_array().map(|a| a.iter().map(|x| x.as_str().unwrap_or("?")).collect()).unwrap_or_default();
@@ -57,6 +92,11 @@ fn predicates(cfg: &Cfg, ev: &Value, pre: &Value, act: &Value) -> Vec<(String, S
         if *s == "S" && cfg.ports[i].mo {
             v.push(("C08".into(), format!("master-only port {} is slave", i + 1)));
         }
+    }
+    // slave-only: configured from the start and never switched off -> never a master port;
+    // switched on at run time -> no master port once a BMCA run has completed
+    if act["dds"]["so"].as_bool() == Some(true) && (ev["e"] == "bmca" || so_from_start) && pst.iter().any(|s| *s == "M") {
+        v.push(("C08".into(), "slave-only instance has a port in the master state".into()));
     }
     if let Some(msg) = act.get("panic").and_then(|x| x.as_str()) {
         if msg.contains(NESTED_MSG) {
@@ -189,7 +229,7 @@ pub fn run_edge(base_cfg: &Value, seed: u64, hist: &[Value], exp: &Value) -> Out
         mismatch = mismatch.or_else(|| subset_match(&w.vals, exp, &act, ""));
     }
     let preds = match events.last() {
-        Some(ev) => predicates(&cfg, ev, &pre, &act),
+        Some(ev) => predicates(&cfg, ev, &pre, &act, cfg.so && !events.iter().any(|e| e["e"] == "so")),
         None => vec![],
     };
     Outcome {
@@ -296,7 +336,7 @@ fn main() {
         if samples.len() < 3 && hist.len() >= 3 && edges % 97 == 1 {
             samples.push(json!({"hist": hist, "observed": {"pst": o.act["pst"], "ppi": o.act["ppi"], "steps": o.act["steps"], "out": o.act.get("out"), "pend": o.act.get("pend")}}));
         }
-        let mut record = |key: String, kind: &str, detail: String, kept: &mut BTreeMap<String, Vec<Value>>| {
+        let record = |key: String, kind: &str, detail: String, kept: &mut BTreeMap<String, Vec<Value>>| {
             let list = kept.entry(key.clone()).or_default();
             if list.len() < max_keep {
                 let path = format!("{}/{}-{}-{}-{}.json", replay_dir, tag, kind, key.replace(|c: char| !c.is_alphanumeric(), "_"), list.len());
@@ -307,7 +347,7 @@ fn main() {
             }
         };
         if let Some(m) = &o.mismatch {
-            let key = top_key(m);
+            let key = top_key(m, exp);
             *mism.entry(key.clone()).or_default() += 1;
             record(format!("field:{}", key), "mismatch", m.clone(), &mut kept);
         }
